@@ -187,3 +187,56 @@ func H_c01_cycles10c4_q() { c01CyclesX(10, true, true) }
 func H_c01_cycles10_t()   { c01Cycles(10, false) }
 func H_c01_cycles10c_t()  { c01Cycles(10, true) }
 func H_c01_cycles9_t()    { c01Cycles(9, rt.Choice("complement", 2) == 1) }
+
+// c01SymMerge: unit contract of the stable merge used by equitable refinement
+// (the refinement must not depend on vertex labels, which rests on stability):
+// symMerge(data, a, m, b) merges two runs sorted by value into one run sorted by
+// value in which equal values keep their relative order.  Runs are drawn as
+// non-decreasing sequences over {0,1,2}; keys record the original positions.
+func c01SymMerge(L1, L2 int) {
+	pre := rt.Choice("pre", 2) // elements before a that must not move
+	l1 := 1 + rt.Choice("l1", L1)
+	l2 := 1 + rt.Choice("l2", L2)
+	n := pre + l1 + l2 + 1
+	data := make([]keyValue, n)
+	run := func(from, to int) {
+		v := 0
+		for i := from; i < to; i++ {
+			v += rt.Choice("inc", 3-v) // non-decreasing, values in {0,1,2}
+			data[i] = keyValue{key: i, value: v}
+		}
+	}
+	for i := 0; i < pre; i++ {
+		data[i] = keyValue{key: i, value: 9}
+	}
+	run(pre, pre+l1)
+	run(pre+l1, pre+l1+l2)
+	data[n-1] = keyValue{key: n - 1, value: -9}
+	orig := append([]keyValue{}, data...)
+	symMerge(data, pre, pre+l1, pre+l1+l2)
+	for i := 0; i < pre; i++ {
+		rt.Check(data[i] == orig[i], "symMerge moved an element before its range")
+	}
+	rt.Check(data[n-1] == orig[n-1], "symMerge moved an element after its range")
+	seen := make([]bool, n)
+	for i := pre; i < pre+l1+l2; i++ {
+		k := data[i].key
+		ok := k >= pre && k < pre+l1+l2 && !seen[k]
+		rt.Check(ok, "symMerge: result is not a permutation of the two runs")
+		if !ok {
+			return
+		}
+		seen[k] = true
+		rt.Check(data[i].value == orig[k].value, "symMerge: key and value separated")
+		if i > pre {
+			rt.Check(data[i-1].value <= data[i].value, "symMerge: result not sorted by value")
+			if data[i-1].value == data[i].value {
+				rt.Check(data[i-1].key < data[i].key, "symMerge: not stable (equal values out of their original order)")
+			}
+		}
+	}
+	rt.Reach("end")
+}
+
+func H_c01_symmerge_q() { c01SymMerge(5, 5) }
+func H_c01_symmerge_t() { c01SymMerge(9, 9) }
